@@ -10,6 +10,7 @@ import ALV.Lemmas.C17Locks
 import ALV.Lemmas.C17Shutdown
 import ALV.Lemmas.C17Paused
 import ALV.Lemmas.C17Wait
+import ALV.Lemmas.C17FineLive
 import ALV.Common.Audit
 
 namespace ALV.Props.C17
@@ -482,6 +483,232 @@ example : let s := (runSched ⟨true, true⟩
       (mkSched [0,0,0,0,0,1,0,0,0,1,1,1,0,0,0,1,1,1,0,0,0,1,1,1,0,1,1,1,0,0,0,0,0])).1
     (Ev.closeOk [false] 0 ∈ s.log ∧ s.players.map (·.written) = [[[101, 102], [103, 0]]]) := by
   decide
+
+
+/-! ### the fine-grained system: every pull of a sample from a played iterable is a step
+
+`ALV.Model.C17Fine`: between two writes a player pulls its samples one at a time into its chunk
+buffer (`Asm`), and any other thread may run between two pulls — the granularity at which the tie
+explores the real code with scheduler-aware iterables (both chunking strategies, 2–3 players).
+`fine_assembly_own_samples` is the invariant that interference through anything shared between
+the chunk generators would break; `fine_refines` says that, when no iterable raises, the fine
+system does nothing the coarse one cannot do, so every theorem above holds for it. -/
+
+/-- schedules of the fine system, as lists of numbers -/
+def fineRun (fc : FCfg) (script : List Cmd) (l : List Nat) : FState := (runSchedF fc (initF script) (mkSched l)).1
+
+/-- **C17.15 fine_assembly_own_samples** — the central invariant of chunk assembly, for EVERY
+schedule (pre-emption between any two pulls), any number of players, any chunk sizes, any script,
+iterables that raise included, with or without the repairs: what a device stream has received,
+then the player's chunk buffer, then the samples it has not pulled yet, is exactly that player's
+own audio (or, once its last chunk was zero padded, the stream holds the audio followed by zeros
+and nothing is left); the buffer never exceeds the chunk size; every chunk written has exactly
+`cs` samples.  No sample of another player can be in it: "nothing lost, duplicated or reordered,
+whatever the interleaving of player threads". -/
+theorem fine_assembly_own_samples {fc : FCfg} {script : List Cmd} {fs : FState}
+    (h : ReachF fc script fs) (k : Nat) (p : Player) (a : Asm)
+    (hp : fs.base.players[k]? = some p) (ha : fs.asm[k]? = some a) :
+    (p.written.flatten ++ a.buf ++ a.rest = p.audio ∨
+      (a.rest = [] ∧ a.buf = [] ∧ ∃ n, p.written.flatten = p.audio ++ List.replicate n 0)) ∧
+    a.buf.length ≤ p.cs ∧ (∀ c ∈ p.written, c.length = p.cs) ∧
+    fs.asm.length = fs.base.players.length := by
+  have inv := own_reach h
+  obtain ⟨h1, h2, h3⟩ := inv.2 k p a hp ha
+  exact ⟨h2, h1, h3, inv.1⟩
+
+/-- script and configuration of the examples: two players, chunk size 2, `wait=True`, no failure -/
+def exFc : FCfg := ⟨⟨true, true⟩, [], false⟩
+def exScript : List Cmd := [.play [101, 102, 103] 2, .play [201, 202] 2, .close]
+
+/-- non-vacuity: player 0 is pre-empted after its first pull, player 1 pulls one sample, player 0
+goes on: the buffers hold `[101, 102]` and `[201]`, never a mixture -/
+example : (fineRun exFc exScript [0,0,0,0,0,0,0,0,0,0,0,0,0,0, 1,1, 2,2, 1]).asm.map (·.buf) =
+      [[101, 102], [201]] ∧
+    (fineRun exFc exScript [0,0,0,0,0,0,0,0,0,0,0,0,0,0, 1,1, 2,2, 1]).asm.map (·.rest) =
+      [[103], [202]] ∧
+    pulling (fineRun exFc exScript [0,0,0,0,0,0,0,0,0,0,0,0,0,0, 1,1, 2,2, 1]) 1 = true := by decide
+
+/-- **C17.16 fine_refines** — refinement: when no played iterable raises (and chunk sizes are
+positive), the coarse state carried by ANY reachable state of the fine system is reachable in the
+coarse system with the same script and configuration: a fine step is a coarse step or a stutter
+step (a pull).  Every safety theorem above therefore holds of the fine system. -/
+theorem fine_refines {fc : FCfg} {script : List Cmd} {fs : FState} (hnf : NoFail fc)
+    (hpos : PosCs script) (h : ReachF fc script fs) : Reach fc.cfg script fs.base :=
+  (sim_reach hnf hpos h).1
+
+/-- **C17.16b fine_delivered_prefix** — `delivered_prefix` for the fine system, all schedules -/
+theorem fine_delivered_prefix {fc : FCfg} {script : List Cmd} {fs : FState} (hnf : NoFail fc)
+    (hpos : PosCs script) (h : ReachF fc script fs) (k : Nat) (p : Player)
+    (hp : fs.base.players[k]? = some p) :
+    p.written <+: chunksOf p.cs p.audio ∧
+    (afterLoop p.pc = true → p.halting = false → p.written = chunksOf p.cs p.audio) :=
+  delivered_prefix (fine_refines hnf hpos h) k p hp
+
+/-- **C17.16c fine_delivered_complete** — `delivered_complete` for the fine system: a player that
+left its loop un-stopped has delivered its audio followed by the zero padding, in chunks of `cs` -/
+theorem fine_delivered_complete {fc : FCfg} {script : List Cmd} {fs : FState} (hnf : NoFail fc)
+    (hpos : PosCs script) (h : ReachF fc script fs) (k : Nat) (p : Player)
+    (hp : fs.base.players[k]? = some p) (ha : afterLoop p.pc = true) (hh : p.halting = false) :
+    p.written.flatten = p.audio ++ List.replicate (padLen p.cs p.audio.length) 0 ∧
+    ∀ c ∈ p.written, c.length = p.cs := by
+  have hr := fine_refines hnf hpos h
+  obtain ⟨hl, hall⟩ := (sim_reach hnf hpos h).2
+  have hk : k < fs.asm.length := by have := lt_of_getElem? hp; omega
+  have hcs : 0 < p.cs := (hall k p fs.asm[k] hp (List.getElem?_eq_getElem hk)).pos
+  exact delivered_complete hr k p hp hcs ha hh
+
+/-- **C17.16d fine_safety** — the other safety clauses for the fine system: backend terminated at
+most once; no backend call PortAudio would refuse; `close`'s assertion holds; and once the backend
+is terminated everything is closed -/
+theorem fine_safety {fc : FCfg} {script : List Cmd} {fs : FState} (hnf : NoFail fc)
+    (hpos : PosCs script) (h : ReachF fc script fs) :
+    fs.base.terminated ≤ 1 ∧ fs.base.perr = false ∧ Ev.closeAssertionError ∉ fs.base.log ∧
+    (1 ≤ fs.base.terminated → closedAfter fs.base = true) := by
+  have hr := fine_refines hnf hpos h
+  exact ⟨terminate_once hr, backend_protocol hr, (close_assertion_holds hr).1, closed_after hr⟩
+
+/-- a complete fine run of the two players with pre-emptions inside chunk assembly -/
+def exFull : List Nat :=
+  [0,0,0,0,0,0,0,0,0,0,0,0,0,0, 1,1, 2,2, 1,1,1,1,1,1,1,1,1,1,1, 0,0,0, 2,2,2,2,2,2,2,2, 0,0,0,0,0]
+
+/-- non-vacuity of the refinement theorems: the hypotheses hold, the run ends with both streams
+holding their own audio, everybody finished -/
+example : ((fineRun exFc exScript exFull).base.players.map (·.written) =
+      [[[101, 102], [103, 0]], [[201, 202]]]) ∧
+    (allDone (fineRun exFc exScript exFull).base = true) ∧ NoFail exFc ∧
+    (posCsB exScript = true) := by
+  refine ⟨by decide, by decide, ?_, by decide⟩
+  intro b hb; cases hb
+
+/-- **C17.17 fine_terminal_iff** — a thread can move in the fine system exactly when it can in the
+coarse state (a pull is always possible, a write needs what the coarse write needs): terminal
+states, hence deadlocks, correspond. -/
+theorem fine_terminal_iff {fc : FCfg} {script : List Cmd} {fs : FState} (hnf : NoFail fc)
+    (hpos : PosCs script) (h : ReachF fc script fs) :
+    terminalF fc fs = terminal fc.cfg fs.base :=
+  terminalF_eq fc fs (sim_reach hnf hpos h).2
+
+/-- **C17.18 fine_rank_decreases** — every step of every thread of the fine system decreases the
+rank `phiF` = coarse rank + samples of the `play` calls still to be issued + samples still to be
+pulled: no fairness assumption is needed for the fine system either. -/
+theorem fine_rank_decreases {fc : FCfg} {script : List Cmd} {fs fs' : FState} {t : Tid}
+    (hnf : NoFail fc) (hpos : PosCs script) (hr : ReachF fc script fs)
+    (h : stepF fc fs t = some fs') : phiF fc fs' < phiF fc fs :=
+  phiF_step hnf hpos hr h
+
+/-- **C17.18b fine_steps_bounded** — every fine run is finite: at most the coarse bound plus one
+step for each sample played. -/
+theorem fine_steps_bounded (fc : FCfg) (script : List Cmd) (hnf : NoFail fc) (hpos : PosCs script)
+    (sched : List Tid) (h : (runSchedF fc (initF script) sched).2 = []) :
+    sched.length ≤ stepBound fc.cfg script + audW script := by
+  have := runSchedF_phiF hnf hpos sched (ReachF.init (fc := fc) (script := script)) h
+  rw [phiF_init] at this
+  unfold stepBoundF at this
+  omega
+
+/-- **C17.18c fine_maximal_run_exists** — every executed fine schedule can be continued to a state
+where nobody is enabled. -/
+theorem fine_maximal_run_exists (fc : FCfg) (script : List Cmd) (hnf : NoFail fc)
+    (hpos : PosCs script) (sched : List Tid) (h : (runSchedF fc (initF script) sched).2 = []) :
+    ∃ ext, (runSchedF fc (initF script) (sched ++ ext)).2 = [] ∧
+      terminalF fc (runSchedF fc (initF script) (sched ++ ext)).1 = true := by
+  have hr : ReachF fc script (runSchedF fc (initF script) sched).1 :=
+    reachF_runSchedF sched ReachF.init
+  obtain ⟨ext, h1, h2⟩ := exists_maximalF hnf hpos _ _ hr (Nat.le_refl _)
+  have happ := runSchedF_append fc sched (initF script) ext h
+  exact ⟨ext, by rw [happ]; exact h1, by rw [happ]; exact h2⟩
+
+/-- **C17.19 fine_shutdown** — the liveness clause for the fine system (pre-emption anywhere
+inside chunk assembly): every fine schedule that was executed to its end is bounded, and if nobody
+is enabled at its end then — under the hypotheses of `close_returns_fixed` (repaired `stop()`,
+`wait=False`, whatever was paused), or of `close_returns_no_pause` (no `pause` call, both
+variants, any `wait`), or of `close_returns_wait_checked` (repaired `stop()`, nobody paused when
+`close` is called) — the script has completed, `close` has returned, every stream is closed, the
+backend was terminated exactly once and no player is alive. -/
+theorem fine_shutdown (fc : FCfg) (script : List Cmd) (hnf : NoFail fc) (hpos : PosCs script)
+    (hc : Cmd.close ∈ script)
+    (hyp : (fc.cfg.fixed = true ∧ fc.cfg.wait = false ∧ ∀ i, Cmd.join i ∉ script) ∨
+           NoPause script ∨
+           (fc.cfg.fixed = true ∧ closeUnpaused fc.cfg script = true ∧ ∀ i, Cmd.join i ∉ script))
+    (sched : List Tid) (hrun : (runSchedF fc (initF script) sched).2 = []) :
+    sched.length ≤ stepBound fc.cfg script + audW script ∧
+    (terminalF fc (runSchedF fc (initF script) sched).1 = true →
+      (runSchedF fc (initF script) sched).1.base.mpc = .done ∧
+      (∃ al n, Ev.closeOk al n ∈ (runSchedF fc (initF script) sched).1.base.log) ∧
+      closedAfter (runSchedF fc (initF script) sched).1.base = true ∧
+      noneAlive (runSchedF fc (initF script) sched).1.base = true ∧
+      (runSchedF fc (initF script) sched).1.base.terminated = 1) := by
+  refine ⟨fine_steps_bounded fc script hnf hpos sched hrun, fun ht => ?_⟩
+  have hrf : ReachF fc script (runSchedF fc (initF script) sched).1 :=
+    reachF_runSchedF sched ReachF.init
+  have hr := fine_refines hnf hpos hrf
+  rw [fine_terminal_iff hnf hpos hrf] at ht
+  have hd : (runSchedF fc (initF script) sched).1.base.mpc = .done := by
+    rcases hyp with ⟨hf, hw, hj⟩ | hn | ⟨hf, hu, hj⟩
+    · exact close_returns_fixed fc.cfg script _ hf hw hj hr ht
+    · have ha := close_returns_no_pause fc.cfg script _ hn hr ht
+      unfold allDone at ha
+      simp only [Bool.and_eq_true, beq_iff_eq] at ha
+      exact ha.1
+    · exact close_returns_wait_checked fc.cfg script _ hf hu hj hr ht
+  exact ⟨hd, after_done hr ht hd hc⟩
+
+/-- **C17.19b fine_wait_close_delivers_all** — `wait=True`, no `stop()` call: once `close` has
+returned in the fine system every device stream holds its whole chunk sequence. -/
+theorem fine_wait_close_delivers_all {fc : FCfg} {script : List Cmd} {fs : FState}
+    (hnf : NoFail fc) (hpos : PosCs script) (hw : fc.cfg.wait = true)
+    (hns : ∀ i, Cmd.ctl .stop i ∉ script) (h : ReachF fc script fs)
+    (al : List Bool) (n : Nat) (hc : Ev.closeOk al n ∈ fs.base.log)
+    (k : Nat) (p : Player) (hp : fs.base.players[k]? = some p) :
+    p.written = chunksOf p.cs p.audio :=
+  wait_close_delivers_all hw hns (fine_refines hnf hpos h) al n hc k p hp
+
+/-! ### a played iterable that raises (known finding D21) -/
+
+/-- the code as it is (`dieFixed = false`): `play(it)` with an iterable that raises at its second
+pull, then `close()` (`wait=True`), under the schedule found on the real code by the harness -/
+def dieFc : FCfg := ⟨⟨true, true⟩, [true], false⟩
+def dieState : FState := fineRun dieFc [.play [101] 2, .close] [0,0,0,0,0,0,0,0,0, 1,1,1, 0]
+
+/-- **C17.20 die_close_spins** — an iterable that raises kills the player thread before its
+epilogue: the thread is finished (`join` returns at once) but still first in `_threads`, its
+device stream still open; and from ANY state of that shape (`Spinning`) the loop in `close` — take
+the lock and `_threads[0]`, release, `join` — can be repeated for ever without changing anything:
+`close()` never returns (no `close` event is ever logged).  Known finding D21. -/
+theorem die_close_spins :
+    Spinning dieFc dieState 0 ∧ dieState.base.players.map (·.sst) = [.active] ∧
+    (∀ (fc : FCfg) (fs : FState) (i : Nat), Spinning fc fs i → ∀ n, ∃ fs',
+      runSchedF fc fs (List.replicate n [Tid.main, .main, .main]).flatten = (fs', []) ∧
+      fs'.base.mpc = .kMAcq ∧ fs'.base.log = fs.base.log) := by
+  refine ⟨⟨by decide, by decide, by decide, by decide, by decide, by decide⟩, by decide, ?_⟩
+  intro fc fs i h n
+  exact spin_forever n h
+
+/-- **C17.20b die_fixed_close_returns** — with `try … finally` around the loop of `run`
+(proposed_fixes/D21-player-dies-close-spins.diff, `dieFixed = true`) the same history under the
+same schedule, continued, runs `close` to its end: the chunks completed before the exception
+were delivered, the stream is closed, the backend terminated once, nobody is alive. -/
+theorem die_fixed_close_returns :
+    let fc : FCfg := ⟨⟨true, true⟩, [true], true⟩
+    let fs := fineRun fc [.play [101, 102, 103] 2, .close]
+      [0,0,0,0,0,0,0,0,0, 1,1,1,1,1,1,1,1,1,1,1,1, 0,0,0,0,0]
+    (fs.base.log = [.playOk 0, .closeOk [false] 0] ∧ closedAfter fs.base = true ∧
+      noneAlive fs.base = true ∧ fs.base.players.map (·.written) = [[[101, 102]]] ∧
+      terminalF fc fs = true) := by decide
+
+-- PENDING: the general shutdown statement for iterables that raise, with the repair of `run`
+-- (`dieFixed = true`): a player whose iterable raises goes to its epilogue as a stopped player
+-- does, so `fine_shutdown` should hold without `NoFail`.  Proved today: the delivery invariant
+-- `fine_assembly_own_samples` (no hypothesis on the iterables), the refinement and liveness for
+-- iterables that do not raise, and the two concrete runs above.
+def fine_shutdown_with_raising_iterables_PENDING : Prop :=
+  ∀ (fc : FCfg) (script : List Cmd), fc.dieFixed = true → PosCs script → Cmd.close ∈ script →
+    fc.cfg.fixed = true → fc.cfg.wait = false → (∀ i, Cmd.join i ∉ script) →
+    ∀ (sched : List Tid), (runSchedF fc (initF script) sched).2 = [] →
+      terminalF fc (runSchedF fc (initF script) sched).1 = true →
+      (runSchedF fc (initF script) sched).1.base.mpc = .done ∧
+      closedAfter (runSchedF fc (initF script) sched).1.base = true ∧
+      noneAlive (runSchedF fc (initF script) sched).1.base = true
 
 /-! ### the deadlock of the code as it is (D10) -/
 
